@@ -45,7 +45,10 @@ type Case struct {
 	Doc     string   `json:"doc"`
 	Actions []Action `json:"actions"`
 	Present int      `json:"present"`
-	Exec    bool     `json:"exec"` // also through the executable and the HTTP server
+	// PresentForm: how the presented public key is written: "" as generated,
+	// "no-kid" the same key material as a JWK without the optional key id
+	PresentForm string `json:"present_form,omitempty"`
+	Exec        bool   `json:"exec"` // also through the executable and the HTTP server
 }
 
 var invoiceDocs []corpus.Doc
@@ -310,6 +313,20 @@ func judge(c Case, o *vh.Obs) {
 		o.Class("expect-reject")
 	}
 	pub := keys[c.Present].Public()
+	if c.PresentForm == "no-kid" {
+		o.Class("key-without-kid")
+		data, _ := json.Marshal(pub)
+		var m map[string]any
+		_ = json.Unmarshal(data, &m)
+		delete(m, "kid")
+		data, _ = json.Marshal(m)
+		k2 := new(dsig.PublicKey)
+		if err := json.Unmarshal(data, k2); err != nil {
+			o.Discard()
+			return
+		}
+		pub = k2
+	}
 
 	// (1) library
 	got := env.Verify(pub) == nil
@@ -503,6 +520,9 @@ func genCase(t *rapid.T) Case {
 		c.Present = signer
 	}
 	c.Exec = rapid.IntRange(0, 9).Draw(t, "exec") == 0
+	if rapid.IntRange(0, 4).Draw(t, "keyform") == 0 {
+		c.PresentForm = "no-kid"
+	}
 	return c
 }
 
@@ -519,6 +539,8 @@ func enumTamper(yield func(Case) bool) {
 			cs := []Case{
 				{Doc: d.Path, Actions: []Action{{Kind: "sign", Key: 0}}, Present: 0, Exec: exec},
 				{Doc: d.Path, Actions: []Action{{Kind: "sign", Key: 0}}, Present: 1, Exec: exec},
+				{Doc: d.Path, Actions: []Action{{Kind: "sign", Key: 0}}, Present: 1, PresentForm: "no-kid", Exec: exec},
+				{Doc: d.Path, Actions: []Action{{Kind: "sign", Key: 0}}, Present: 0, PresentForm: "no-kid", Exec: exec},
 				{Doc: d.Path, Actions: []Action{{Kind: "sign", Key: 0}, {Kind: "edit-doc-recalc", Arg: what, Val: "1"}}, Present: 0, Exec: exec},
 				{Doc: d.Path, Actions: []Action{{Kind: "sign", Key: 0}, {Kind: "edit-doc", Arg: what, Val: "1"}}, Present: 0, Exec: exec},
 				{Doc: d.Path, Actions: []Action{{Kind: "sign", Key: 0}, {Kind: "edit-doc-recalc", Arg: what, Val: "1"}, {Kind: "reparse"}}, Present: 0, Exec: exec},
@@ -537,7 +559,7 @@ func enumTamper(yield func(Case) bool) {
 func init() {
 	vh.OnExit(goblexec.Stop)
 	vh.Describe(
-		"Histories over every signable example invoice: 0-3 header decorations (links, tags, meta, notes), a signature by one of three keys, then 0-5 post-signing steps drawn from: add stamp / link / tag / meta / notes, alter uuid / digest, remove a tag / stamp / link, edit the document with and without recalculation, serialise+parse, sign again (any key), unsign; finally verification with the signer's key (75%) or another, through Envelope.Verify, VerifySignature, cli.Verify, the bulk verify action (in process) and - for a tenth of the cases and the enumerated tamper scenarios - the `gobl verify -k` executable, POST /verify and POST /bulk of a running `gobl serve`. Model: the header JSON recorded at each signing; expected = signed AND every signature made with the presented key AND the current header still contains each signed header (uuid, dig, stamps, links, tags, meta, notes); command-line paths additionally need the envelope to validate. Every path must return exactly the expected verdict. Non-trivial: the history ends signed.",
+		"Histories over every signable example invoice: 0-3 header decorations (links, tags, meta, notes), a signature by one of three keys, then 0-5 post-signing steps drawn from: add stamp / link / tag / meta / notes, alter uuid / digest, remove a tag / stamp / link, edit the document with and without recalculation, serialise+parse, sign again (any key), unsign; finally verification with the signer's key (75%) or another (a fifth of the time written as a JWK without the optional key id), through Envelope.Verify, VerifySignature, cli.Verify, the bulk verify action (in process) and - for a tenth of the cases and the enumerated tamper scenarios - the `gobl verify -k` executable, POST /verify and POST /bulk of a running `gobl serve`. Model: the header JSON recorded at each signing; expected = signed AND every signature made with the presented key AND the current header still contains each signed header (uuid, dig, stamps, links, tags, meta, notes); command-line paths additionally need the envelope to validate. Every path must return exactly the expected verdict. Non-trivial: the history ends signed.",
 		"signatures are random (ECDSA); only verdicts are compared",
 		"whether the envelope validates is taken from Envelope.Validate (its rules are property C10)",
 	)
